@@ -28,7 +28,9 @@ EXCS = ['ZeroDivisionError', 'ValueError', 'KeyError', 'ImportError', 'ModuleNot
         'TypeError', 'RuntimeError', 'OSError', 'UnicodeDecodeError', 'RecursionError', 'CustomError']
 FILES = ['/app/main.py', '/app/pkg/<b id=simx>.py', '/app/ünï.py', '/app/a&b.py', '/app/{tmpl}.py', '/app/' + 'd' * 300 + '.py',
          '/app/with space.py', "/app/quote'\".py", '{stdlib}/os.py', '{stdlib}/json/decoder.py', '{werkzeug}/wrappers/base_response.py',
-         '{clastic}/application.py', '{clastic}/_clastic_assets/common.css']
+         '{clastic}/application.py', '{clastic}/_clastic_assets/common.css',
+         # several spellings of one file
+         '/app/pkg/run.py', '/app/pkg/./run.py', '/app/pkg//run.py', '/app/pkg/sub/../run.py', 'run.py', '{cwd}/run.py']
 
 
 def resolve_file(f):
@@ -36,7 +38,7 @@ def resolve_file(f):
     import os
     import werkzeug
     import clastic
-    return (f.replace('{stdlib}', os.path.dirname(ast.__file__)).replace('{werkzeug}', os.path.dirname(werkzeug.__file__))
+    return (f.replace('{cwd}', os.getcwd()).replace('{stdlib}', os.path.dirname(ast.__file__)).replace('{werkzeug}', os.path.dirname(werkzeug.__file__))
             .replace('{clastic}', os.path.dirname(clastic.__file__)))
 
 
@@ -157,6 +159,13 @@ class World(object):
                 stream.append(noise.pop(0) + '\n')
         stream = [n + '\n' for n in noise[:2]] + stream + [n + '\n' for n in noise[2:]]
         mon_files = [resolve_file(f) for f in child['mon_files']] if child.get('mon_files') is not None else None
+        if mon_files is not None and child.get('mention'):
+            # the files the error text itself names are monitored files (that is why the child was watching them)
+            named = re.findall(r'File "([^"\n]+)"', text)
+            for fn in named[:4]:
+                if fn not in mon_files:
+                    mon_files.append(fn)
+            self.res.probe('error-text-names-monitored-file')
         if mon_files is not None:
             pos = min(len(stream), child.get('mon_pos', len(stream)))
             stream.insert(pos, '%s%r\n' % (srv._MON_PREFIX, mon_files))
@@ -263,7 +272,7 @@ class C20(Check):
                   'stub': ['subprocess.Popen (scripted stderr + exit code)', 'make_server', 'thread', 'signal', 'reloader_loop', 'tty echo', 'test socket']}
     level_text = 'Seeded search over crash/restart scripts and error texts under the real supervisor loop; sampled.'
     level_note = 'Trusted: html.unescape as the inverse of the template escaping; the model of the 1024-line ring buffer.'
-    required_probes = ('ring-buffer-overflow', 'restart-after-change', 'failsafe-shutdown-before-restart', 'type-and-message-named',
+    required_probes = ('error-text-names-monitored-file', 'ring-buffer-overflow', 'restart-after-change', 'failsafe-shutdown-before-restart', 'type-and-message-named',
                        'markup-escaped', 'direct-non-text', 'truncated-traceback', 'syntaxerror-report', 'monitored-files-listed')
 
     # ---- generation --------------------------------------------------------
@@ -296,7 +305,8 @@ class C20(Check):
                      'noise': [frng.choice(['DeprecationWarning: x', ' * Running on http://x/', MARKUP, 'Exception ignored in: <f>', ''])
                                for _ in range(frng.randint(0, 4))],
                      'interleave': frng.choice([None, None, 3, 50]), 'truncate': frng.choice([None, None, None, 1, 2, 5]),
-                     'mon_files': frng.choice([None, [], FILES[:1], FILES, frng.sample(FILES, 3)]), 'mon_pos': frng.choice([0, 3, 9999])}
+                     'mon_files': frng.choice([None, [], FILES[:1], FILES, frng.sample(FILES, 3)]), 'mon_pos': frng.choice([0, 3, 9999]),
+                     'mention': frng.random() < 0.5}
             if child['rc'] == 1 and not child['stderr'] and not child['noise']:
                 child['noise'] = ['boom']
             fs = {'requests': [[rng.choice(['GET', 'GET', 'POST', 'HEAD']), rng.choice(PATHS)]
